@@ -380,32 +380,64 @@ func init() {
 	type c13Sched struct {
 		Strategy string `json:"strategy"`
 		N        int    `json:"n"`
+		// Eject: both backends answer 500 with a passive threshold of 1, so a request that completes ejects its
+		// backend while others stand between "picked" and "examined" and have to retry
+		Eject bool `json:"eject,omitempty"`
 	}
 	vh.AddPart("C13", "gauge-schedules", "sim", vh.Opts{Shards: 10, TimeoutS: 400},
 		func(e *vh.Env) []c13Sched {
 			var cs []c13Sched
 			for _, st := range allStrategies {
-				cs = append(cs, c13Sched{st, 2}, c13Sched{st, 3})
+				cs = append(cs, c13Sched{st, 2, false}, c13Sched{st, 3, false}, c13Sched{st, 3, true})
 			}
 			return cs
 		},
 		func(e *vh.Env, c c13Sched, o *vh.Out) {
 			o.Need("schedules")
 			bes := newBackends(1)
+			if c.Eject {
+				bes = newBackends(2)
+				o.Need("retries_after_ejection")
+			}
 			defer closeBackends(bes)
 			world := func(s *vh.Sched) func(*vh.Sched, vh.SchedResult) {
-				sys, err := startSys(faultConfig(c.Strategy, bes, featureCfg{}), bes, false)
+				cfg := faultConfig(c.Strategy, bes, featureCfg{})
+				s.Only = map[string]bool{"lb.proxy.inc": true, "lb.proxy.dec": true}
+				if c.Eject {
+					cfg.HealthChecks.Passive = config.PassiveHealthCheckConfig{Enabled: true, UnhealthyThreshold: 1, UnhealthyTimeout: 30}
+					for _, b := range bes {
+						b.Reset()
+						b.Default = vh.Script{Status: 500, Headers: [][2]string{{"X-Backend", b.Name}}}
+					}
+					s.Only = map[string]bool{"lb.find.picked": true}
+				}
+				sys, err := startSys(cfg, bes, false)
 				if err != nil {
 					return nil
 				}
-				s.Only = map[string]bool{"lb.proxy.inc": true, "lb.proxy.dec": true}
 				for a := 0; a < c.N; a++ {
 					a := a
-					s.Go(func() { sys.call("GET", "/g", fmt.Sprintf("10.13.7.%d:1", a), nil, nil) })
+					s.Go(func() {
+						cl := fmt.Sprintf("10.13.7.%d:1", a)
+						if c.Eject {
+							cl = "10.13.7.7:1" // one client: the hash strategies send everybody to the same backend
+						}
+						sys.call("GET", "/g", cl, nil, nil)
+					})
 				}
 				return func(s *vh.Sched, r vh.SchedResult) {
 					defer sys.Close()
 					o.Obs("schedules", 1)
+					if c.Eject {
+						// an actor released twice from "picked" found its backend ejected in between and retried
+						seen := map[string]int{}
+						for _, t := range s.Trace {
+							seen[t]++
+							if seen[t] == 2 {
+								o.Obs("retries_after_ejection", 1)
+							}
+						}
+					}
 					if r.Deadlock {
 						o.Viol("C13|sched|stuck", fmt.Sprintf("%s: %v trace %v", c.Strategy, r.Stuck, s.Trace), map[string]any{"prefix": s.Choices})
 						return
